@@ -199,6 +199,82 @@ def lazy_view(flat):
     return iview(idx, lambda _k: True)
 
 
+def _entry(k, h, m):
+    from dvc_data.hashfile.hash_info import HashInfo
+    from dvc_data.hashfile.meta import Meta
+    from dvc_data.index import DataIndexEntry
+
+    meta = None
+    if m is not None:
+        meta = Meta(isdir=True) if m[0] == "d" else Meta(size=m[1], isexec=m[2], inode=m[3] if len(m) > 3 else None)
+    hi = HashInfo(h[0], h[1]) if h else (HashInfo("md5", None) if h == () else None)
+    return DataIndexEntry(key=k, meta=meta, hash_info=hi, loaded=True if m == ("d",) else None)
+
+
+_SQ = {"n": 0}
+
+
+def sqlite_index(flat, via=None, reopen=False):
+    """The same index kept in an SQLite file. `via`: the file first holds that other index (committed) and is
+    then turned into `flat` in the same session by deleting and overwriting entries; `reopen`: committed,
+    closed and opened again before use. Returns (index, path)."""
+    import os
+
+    from dvc_data.index import DataIndex
+
+    from ..world import session_root
+
+    _SQ["n"] += 1
+    path = os.path.join(session_root(), f"c08-{os.getpid()}-{_SQ['n']}.sqlite")
+    idx = DataIndex.open(path)
+    if via:
+        for k, (h, m) in via.items():
+            idx[k] = _entry(k, h, m)
+        idx.commit()
+        # children before parents, so that no entry is ever below a missing node
+        for k in sorted(via, key=len, reverse=True):
+            if k not in flat:
+                del idx[k]
+    for k, (h, m) in flat.items():
+        if not via or via.get(k) != (h, m):
+            idx[k] = _entry(k, h, m)
+    idx.commit()
+    if reopen:
+        idx.close()
+        idx = DataIndex.open(path)
+    return idx, path
+
+
+def check_sqlite(fo, fn, opt):
+    """Both sides SQLite-backed indexes of this process: the old one was turned from the new one's content into
+    its own within one session, the new one was committed, closed and reopened."""
+    import os
+
+    # (the inode is not part of the serialised metadata: both sides are compared without it)
+    def noino(flat):
+        return None if flat is None else {k: (h, m[:3] if m and m[0] == "f" else m) for k, (h, m) in flat.items()}
+
+    fo, fn = noino(fo), noino(fn)
+    io = in_ = None
+    paths = []
+    try:
+        if fo is not None:
+            io, p_ = sqlite_index(fo, via=fn)
+            paths.append(p_)
+        if fn is not None:
+            in_, p_ = sqlite_index(fn, reopen=True)
+            paths.append(p_)
+        return check_pair(fo, fn, io, in_, opt)[0]
+    finally:
+        for ix in (io, in_):
+            if ix is not None:
+                ix.close()
+        for p_ in paths:
+            for suffix in ("", "-wal", "-shm", "-journal"):
+                if os.path.exists(p_ + suffix):
+                    os.unlink(p_ + suffix)
+
+
 def check_lazy_views(fo, fn, opt):
     io = lazy_view(fo) if fo is not None else None
     in_ = lazy_view(fn) if fn is not None else None
@@ -505,6 +581,19 @@ def run_case(case):
                     sigs.add(sig)
                     res["viol"].append((sig, detail, {"tier": case["tier"], "i": i, "j": j, "opt": list(opt[:4]) + [None],
                                                       "lazy": True}))
+        if (i + 3 * j) % 23 == 0:
+            for opt in (("default", True, False, False, None), ("hash_only", False, False, True, None)):
+                viol = check_sqlite(fo, fn, opt)
+                res["n"] += 1
+                res["trans"] += 1
+                res["vac"]["sqlite_backed_diffs"] = res["vac"].get("sqlite_backed_diffs", 0) + 1
+                for sig, detail in viol:
+                    sig = sig + "/sqlite-backed"
+                    if sig in sigs:
+                        continue
+                    sigs.add(sig)
+                    res["viol"].append((sig, detail, {"tier": case["tier"], "i": i, "j": j, "opt": list(opt[:4]) + [None],
+                                                      "sqlite": True}))
         for opt in OPTS:
             io = build_index(fo) if fo is not None else None
             in_ = build_index(fn) if fn is not None else None
@@ -541,6 +630,8 @@ def replay(case):
         opt = opt[:4] + (tuple(tuple(r) for r in opt[4]),)
     if case.get("lazy"):
         return [(s_ + "/lazy-views", d) for s_, d in check_lazy_views(fo, fn, opt)]
+    if case.get("sqlite"):
+        return [(s_ + "/sqlite-backed", d) for s_, d in check_sqlite(fo, fn, opt)]
     return check_pair(fo, fn, io, in_, opt)[0]
 
 
@@ -550,6 +641,8 @@ def run(ctx):
         "E1 product: all ordered pairs of well-formed indexes over keys {a, a/x, a/y, b}"
         " (thorough: + a/x/z, more entry variants), None on either side, x 20 option "
         "combinations {default|hash_only|meta_only} x with_unchanged x shallow x with_renames;"
+        " every 23rd pair also with both sides SQLite-backed (the old one turned from the new one's content into its own by"
+        " deletes and overwrites within one session, the new one committed, closed and reopened);"
         " non-trivial = both indexes have >=2 entries and differ"
     )
     ctx.bound = {"indexes": len(flats), "options": len(OPTS), "universe": universe(ctx.tier)}
@@ -564,7 +657,7 @@ def run(ctx):
         "hash_only without with_unchanged: directory entries beneath a directory whose "
         "content-derived hash is equal on both sides are not changes",
     ]
-    ctx.require("renames_found", "shortcut_candidates", "kind_change_pairs", "lazy_view_diffs")
+    ctx.require("renames_found", "shortcut_candidates", "kind_change_pairs", "lazy_view_diffs", "sqlite_backed_diffs")
     cs = [{"tier": ctx.tier, "i": i} for i in range(-1, len(flats))]
     ctx.run_cases("run_case", cs, chunksize=1, det=3)
     ctx.extra["distinct_indexes"] = len(flats)
